@@ -18,7 +18,10 @@ the extent (`extent_point_cell`). The legitimate configurations are `margin ≥ 
 positive explicit cell size; on them the constructor and every query of a point / segment / track inside the closed
 extent return (`constructor_returns`, `point_query_complete`, `segment_query_returns`, `track_query_returns`,
 `neighborhood_complete`), for every bounding box: thin, flat, a single point, shorter than a cell
-(`grid_always_builds`, `flat_axis_single_column`). -/
+(`grid_always_builds`, `flat_axis_single_column`). The front ends are inside the model: `TrackCollection.createSpatialIndex`
+(`collection_create_index`: its flag is the margin), the constructor and `Network.createSpatialIndex` with their default
+margin 0.05 (`default_margin_create_index`), and sequences of `Network.addEdge` calls on an indexed network
+(`network_add_edges_complete`: running edge numbers). -/
 namespace TV.C08
 open TV.Grid
 variable {α : Type} [Field α] [LinearOrder α] [IsStrictOrderedRing α]
